@@ -967,6 +967,11 @@ def rpdac_phase2(case, impl_lines):
             ops.append(["rdchk", strs, src[1] if len(src) > 1 else "-", src[2] if len(src) > 2 else "-", d.get("t", "0"), d.get("rules", "-"),
                         d.get("seqs", "-"), d.get("loc", "-"), d.get("abs", "-"), d.get("pre", "-")])
             k += 1
+        elif len(t) >= 9 and t[1] == "HD":
+            d = dict(x.split("=", 1) for x in t[2:])
+            ops.append(["hdchk", strs, src[1] if len(src) > 1 else "-", str(case[3].get("hs", 0)), d.get("ts", "0"), d.get("occ", "-"), d.get("t", "0"),
+                        d.get("rules", "-"), d.get("seqs", "-"), d.get("loc", "-"), d.get("abs", "-")])
+            k += 1
         elif len(t) >= 2 and t[1] == "RQ":
             ops.append(["rdskip"])
             k += 1
@@ -989,6 +994,9 @@ def rpdac_cases(tier, rng, k):
         ps = [p for p in gen.prefixes_of(r, S, 14) if p][:20]
         ph = ",".join(hx(p) for p in ps) or "-"
         cases.append(("rq_%s" % name, "rpdac", "RPDAC", {}, S, [["rd", qh, ph], ["reload"], ["rd", qh, ph]]))
+        for ov in (0, 25):
+            hs = int(len(S) * (1 + (ov * 1.0 / 100.0)))
+            cases.append(("hq_%s_%d" % (name, ov), "rpdac", "HASHRPDAC", {"ov": ov, "hs": hs}, S, [["hd", qh], ["reload"], ["hd", qh]]))
     return cases
 
 
